@@ -335,3 +335,8 @@ extend("C16", "A-REL (no-alias clause)", "a titled document reached as an allOf 
 extend("C12", "B-QUALIFIED", "a file name is resolved as written, relative to the referring file (no percent-decoding).")
 extend("C10", "", "a file name is resolved as written (no percent-decoding).")
 extend("C17", "", "with --extra-imports and a tag list without yaml both methods are emitted and agree.")
+# ---- round 11 additions
+extend("C02", "", "a union of primitive branches of different types is not declared as one of them (every branch counts).")
+extend("C03", "", "a union of primitive branches of different types is interface{}.")
+extend("C08", "", "a listed integer value is not converted through a narrower integer type on its way into the value table.")
+extend("C10", "", "a document recursive through # keeps its own root type also when a definition has the root's name.")
